@@ -1871,3 +1871,124 @@ def slice_join(m, a, ci):
 @reg('Into::into', 'From::from')
 def into_into(m, a, ci):
     return a[0]
+
+
+# -- ordering on strings, sorting, hash sets -----------------------------------------------------
+
+def str_lt(a, b):
+    """byte-wise (= code-point-wise) lexicographic a < b as a formula"""
+    n = min(len(a), len(b))
+    res = len(a) < len(b)   # all compared equal: shorter is smaller
+    for i in range(n - 1, -1, -1):
+        x, y = a.chars[i], b.chars[i]
+        res = b_or(i_ult(x, y, 32), b_and(c_eq(x, y), res))
+    return res
+
+
+def key_lt(m, x, y):
+    x = m.load(x) if isinstance(x, Ref) else x
+    y = m.load(y) if isinstance(y, Ref) else y
+    if isinstance(x, Str) and isinstance(y, Str):
+        return str_lt(x, y)
+    if isinstance(x, (int,)) or is_sym(x):
+        return i_ult(x, y)
+    if isinstance(x, Agg) and x.ty == 'Reverse' and isinstance(y, Agg) and y.ty == 'Reverse':
+        return key_lt(m, y.fields[0], x.fields[0])
+    if isinstance(x, Agg) and x.ty == 'tuple' and isinstance(y, Agg) and y.ty == 'tuple' and len(x.fields) == len(y.fields):
+        res = False
+        for a, b in reversed(list(zip(x.fields, y.fields))):
+            res = b_or(key_lt(m, a, b), b_and(b_not(key_lt(m, b, a)), res))
+        return res
+    raise EncoderGap('ordering of %r / %r' % (x, y))
+
+
+def stable_sort(m, items, keys, reverse=False):
+    """stable insertion sort; every comparison whose outcome is not determined forks the path"""
+    out = []
+    for it, k in zip(items, keys):
+        pos = len(out)
+        while pos > 0 and m.ctx.branch(key_lt(m, k, out[pos - 1][1])):
+            pos -= 1
+        out.insert(pos, (it, k))
+    return [it for it, k in out]
+
+
+@reg('slice::sort_by_key', 'slice::sort_by_cached_key', 'slice::sort_unstable_by_key')
+def slice_sort_by_key(m, a, ci):
+    v = m.load(a[0])
+    if not isinstance(v, Vec):
+        raise EncoderGap('sort of %r' % (v,))
+    keys = [m.call_value(a[1], [m.heap.alloc(x) if not isinstance(x, Ref) else x]) for x in v.items]
+    m.store(a[0], Vec(stable_sort(m, list(v.items), keys), v.kind))
+    return UNIT
+
+
+@reg('slice::sort', 'slice::sort_unstable')
+def slice_sort(m, a, ci):
+    v = m.load(a[0])
+    m.store(a[0], Vec(stable_sort(m, list(v.items), list(v.items)), v.kind))
+    return UNIT
+
+
+@reg('slice::sort_by', 'slice::sort_unstable_by')
+def slice_sort_by(m, a, ci):
+    v = m.load(a[0])
+    out = []
+    for it in v.items:
+        pos = len(out)
+        while pos > 0:
+            o = m.call_value(a[1], [m.heap.alloc(it), m.heap.alloc(out[pos - 1])])
+            d = o.disc if isinstance(o, CEnum) else None
+            if d is None:
+                raise EncoderGap('sort_by comparator result %r' % (o,))
+            if not m.ctx.branch(i_eq(d, norm(-1, o.bits), o.bits)):
+                break
+            pos -= 1
+        out.insert(pos, it)
+    m.store(a[0], Vec(out, v.kind))
+    return UNIT
+
+
+@reg('str.Ord::cmp', 'String.Ord::cmp', 'EcoString.Ord::cmp', 'str.PartialOrd::partial_cmp')
+def str_cmp(m, a, ci):
+    x, y = _s(m, a[0]), _s(m, a[1])
+    lt = str_lt(x, y)
+    eq = False if len(x) != len(y) else str_eq(x, y)
+    d = b_ite(lt, norm(-1, 64), b_ite(eq, 0, 1))
+    r = CEnum('Ordering', d, 64)
+    return some(r) if ci.method == 'partial_cmp' else r
+
+
+class SetV:
+    """hash set with path-concrete structure: list of distinct (under the path condition) elements"""
+    __slots__ = ('items',)
+
+    def __init__(self, items=()):
+        self.items = tuple(items)
+
+
+@reg('HashSet::new', 'HashSet::default', 'HashSet::with_capacity', 'BTreeSet::new')
+def hashset_new(m, a, ci):
+    return SetV()
+
+
+@reg('HashSet::insert', 'BTreeSet::insert')
+def hashset_insert(m, a, ci):
+    s = m.load(a[0])
+    x = a[1]
+    for y in s.items:
+        if m.ctx.branch(value_eq(m, x, y)):
+            return False
+    m.store(a[0], SetV(s.items + (x,)))
+    return True
+
+
+@reg('HashSet::contains', 'BTreeSet::contains')
+def hashset_contains(m, a, ci):
+    s = m.load(a[0])
+    return b_or(*[value_eq(m, a[1], y) for y in s.items])
+
+
+@reg('HashSet::len', 'BTreeSet::len')
+def hashset_len(m, a, ci):
+    return len(m.load(a[0]).items)
